@@ -118,6 +118,28 @@ Theorem C07_deleted_file_parent_marked :
     In d (qdirs (before_delete trees x q)).
 Proof. exact before_delete_marks_parent. Qed.
 
+(* Finding (volatile output forgotten): a detached, creator-less file that is supplied as an input of
+   another step is re-created through File.initialize_row with UNDECLARED requested. For BUILT/OUTDATED
+   rows the keep rule preserves the state, so the cleanup still removes the file later; for VOLATILE
+   rows it does not (unless the second arm of the keep rule exists: flag regenerated from file.py), the
+   row becomes UNDECLARED, File.before_delete queues nothing, and the volatile file stays on disk for
+   good after the node is deleted. Reproduced on the real serve(): step mkA renames its volatile output
+   while a new step names the old path as input (build incomplete), third build succeeds. *)
+Definition C07_supply_keeps_cleanup_memory : Prop :=
+  forall s, queued_on_delete s = true -> queued_on_delete (init_row_state FS_UNDECLARED s) = true.
+
+Theorem C07_supply_keeps_cleanup_memory_hashed :
+  forall s, memN s bd_hashed_states = true -> queued_on_delete (init_row_state FS_UNDECLARED s) = true.
+Proof. exact supply_keeps_cleanup_memory_hashed. Qed.
+
+Theorem C07_supply_keeps_cleanup_memory_refuted :
+  keep_volatile_on_supply = false -> ~ C07_supply_keeps_cleanup_memory.
+Proof. exact supply_keeps_cleanup_memory_refuted. Qed.
+
+Theorem C07_supply_keeps_cleanup_memory_fixed :
+  keep_volatile_on_supply = true -> C07_supply_keeps_cleanup_memory.
+Proof. exact supply_keeps_cleanup_memory_fixed. Qed.
+
 (* Non-vacuity: root -> step s (detached) creates step t creates file o, s has o as amended input
    (a cycle s -> t -> o -> s), plus a detached orphan file x. The cycle survives, x is deleted and
    queued with its recorded hash, its directory is marked. *)
